@@ -292,6 +292,7 @@ PROFILE_C01 = {
     "client_kinds": ["metric_loop", "metric_loop", "metric_loop", "diagram", "diagram", "auto_threshold",
                      "probabilistic", "from_field", "random"],
     "p_fault_kind": 0.3, "p_pinned": 1.0, "p_axis_all": 0.3, "p_inf": 0.08,
+    "p_env_pre": 0.55,     # time-zone / clock jumps land before the files are read more often (after S98)
 }
 
 
@@ -664,8 +665,15 @@ def c11_gen(seed, run, tier):
                         "index": {"wrap": orng.randrange(0, 8)}})
         elif r < 0.76:
             ops.append({"op": "labels", "axis": orng.choice(["Time", "Year", "Month", "Week", "Day", "Location", "Lat", "Elev"])})
-        elif r < 0.82:
+        elif r < 0.80:
             ops.append({"op": "cli", "axis": orng.choice(C11_AXES[:15])})
+        elif r < 0.82:
+            # a diagram between the calendar operations (history perturbation, no verdict of its own)
+            drng = prng.stream(*parts, "diagram", len(ops))
+            ops.append({"op": "diagram", "metric": drng.choice(["meteo", "meteo", "timeseries", "obsfcst", "qq", "mae", "scatter"]),
+                        "input": drng.randrange(n_inputs), "date_index": drng.randrange(8) if drng.random() < 0.6 else None})
+            if drng.random() < 0.7:
+                ops.append({"op": "labels", "axis": drng.choice(["Time", "Year", "Month", "Week", "Day"])})
         elif r < 0.93:
             inst = _instants(orng, 40)
             # a second array with the same length, first and last element but another interior
